@@ -28,6 +28,9 @@ non-canonical int spellings (``+5``, ``007``, `` 7``); float spellings other tha
 a blank between number and unit, double blanks; descending ranges; the date of a time-only datetime text; the
 partial list left in a ``multiple`` option after a failed parse.
 
+EITHER in the wrong-type grid: bool for int, int/bool for float (numeric tower), tuples and attribute-assigned strings
+for ``multiple`` options, config-file strings for bool/timedelta options, ``None``.
+
 Corrections: (1) a *stricter* ``_parse_bool`` (``no``/``off``/typos raise options.Error instead of silently meaning
 True) made the check report ``C44.valid_input_rejected`` -- an oracle over-reach: undocumented bool spellings were
 "any bool" but not "or Error".  Fixed, and the same review moved the implementation-derived float and timedelta
@@ -49,6 +52,15 @@ Sensitivity (quick tier, seed 1, scratch copies; all caught = exit 1):
     has inf/-inf/nan, extreme exponents and the literal spellings 1e308, 5e-324, 1E5, +1.5, .5, 5., -0.0 (must parse
     to float(text), compared exactly incl. nan and the sign of zero), lenient spellings (Infinity, +inf, " 1.5 ",
     1_0.5) are value-or-error (sixth-round mutation testing)
+  * ``_Option.set``: ``if value is not None and not isinstance(...)`` -> ``if value and not isinstance(...)`` (every falsy
+    value of the wrong type stored silently: ``port = 0.0``, ``name = 0``, ``debug = 0``, ``name = b""``, ``port = []``)
+    ... caught at seeds 1,2,3 (C44.wrong_type_accepted) by the deterministic ``wrongtype`` grid: option type x native
+    value universe incl. every falsy value x {config file, attribute, item assignment}, single and multiple options,
+    wrong-typed list elements; valid values (0, 0.0, '', False, timedelta(0), []) must be stored unchanged.  The random
+    negative step reached it at seeds 1 and 3 only (eighth-round mutation testing)
+  * ``parse_command_line``: ``args[i].lstrip("-")`` -> ``.strip("-")`` (trailing dashes of the value lost: ``--out_file=-`` ->
+    ``''``) ... caught (C44.value) deterministically by the ``strgrid`` part (str option, single/multiple, 29 edge
+    texts with leading/trailing dashes, '=', blanks, commas, empty) -- the random search alone hit it only at some seeds
   * ``_parse_timedelta``: ``_TIMEDELTA_PATTERN.match(value, start)`` -> ``.search(value, start)`` (junk before or
     between components skipped: ``x45s``, ``about 45s``, ``1h, 30m``, ``=45``) ... caught (C44.bad_input_accepted,
     negative kind ``td_junk``: junk before / between / after otherwise valid components, command line and
@@ -704,13 +716,15 @@ float_spec_s = st.one_of(
 )
 bool_text_s = st.sampled_from(["true", "false", "1", "0", "t", "f", "True", "FALSE", "T", "F", "False", "TRUE"] * 3
                               + ["yes", "no", "off", "on", "", "2", "y", "n", "nil"])
+_DASHY = ["-", "--", "abc-", "abc--", "x-", "-x-", "a=b-", "path/-"]
 str_s = st.one_of(
+    st.sampled_from(_DASHY),
     st.text(alphabet=st.characters(exclude_characters="\x00", exclude_categories=["Cs"]), max_size=12),
     st.sampled_from(["", "a=b", "=", "-x", "--y=z", "a,b", " spaced ", "café", "中文", "line\nbreak", "q'\"\\"]),
 )
 str_item_s = st.one_of(
     st.text(alphabet=st.characters(exclude_characters="\x00,", exclude_categories=["Cs"]), min_size=1, max_size=8),
-    st.sampled_from(["a=b", "-x", "host:11011", "1:3", " "]),
+    st.sampled_from(["a=b", "-x", "host:11011", "1:3", " "] + _DASHY),
 )
 
 
@@ -828,9 +842,184 @@ def case_s(draw):
     return {"defs": defs, "steps": steps}
 
 
-PARTS = {"main": run_case}
+# ----------------------------------------------------------------------------- wrong-type grid (deterministic)
+# "values of the wrong type are rejected with an error rather than silently accepted": every option type x every
+# native Python value of a small universe (every falsy value included: 0, 0.0, '', b'', [], (), {}, set(),
+# False, 0j, timedelta(0)) x three channels (config-file assignment, attribute assignment, item assignment).
+_DT = "__import__('datetime')"
+WT_VALUES = [
+    ("0", "int"), ("1", "int"), ("-1", "int"), ("0.0", "float"), ("1.5", "float"), ("''", "str"), ("'x'", "str"),
+    ("b''", "bytes"), ("b'x'", "bytes"), ("[]", "list"), ("()", "tuple"), ("(1,)", "tuple"), ("{}", "dict"), ("{'a': 1}", "dict"),
+    ("set()", "set"), ("False", "bool"), ("True", "bool"), ("0j", "complex"),
+    (_DT + ".timedelta(0)", "timedelta"), (_DT + ".timedelta(1)", "timedelta"),
+    (_DT + ".datetime(2020, 1, 2, 3, 4, 5)", "datetime"), (_DT + ".date(2020, 1, 2)", "date"),
+]
+WT_ELEMENTS = [("0", "int"), ("1", "int"), ("0.0", "float"), ("1.5", "float"), ("''", "str"), ("'x'", "str"), ("b''", "bytes"), ("[]", "list"),
+               ("()", "tuple"), ("{}", "dict"), ("False", "bool"), ("True", "bool"), (_DT + ".timedelta(0)", "timedelta"),
+               (_DT + ".datetime(2020, 1, 2, 3, 4, 5)", "datetime")]
+WT_CHANNELS = ["config", "setattr", "setitem"]
+# option type -> (kinds that are instances of it, kinds that are EITHER).  bool-for-int and int/bool-for-float are
+# EITHER: Python's numeric tower makes them instances or near-instances and implementations legitimately differ.
+WT_VALID = {"int": ({"int"}, {"bool"}), "float": ({"float"}, {"int", "bool"}), "str": ({"str"}, set()), "bool": ({"bool"}, set()),
+            "datetime": ({"datetime"}, set()), "timedelta": ({"timedelta"}, set())}
+WT_GOOD = {"int": "7", "float": "2.5", "str": "'keep'", "bool": "True", "datetime": _DT + ".datetime(1999, 9, 9)", "timedelta": _DT + ".timedelta(9)"}
+
+
+def wt_classify(tname, multiple, literal, kind, elem_kind, channel):
+    """-> 'valid' | 'wrong' | 'either' for assigning eval(literal) to an option of that type."""
+    valid, either = WT_VALID[tname]
+    if not multiple:
+        if kind == "str" and tname != "str" and channel == "config":
+            # a string in a config file is the textual form: '' and 'x' are not int/float/datetime texts;
+            # bool and timedelta texts of that shape are EITHER (see the module docstring)
+            return "wrong" if tname in ("int", "float", "datetime") else "either"
+        if kind in valid:
+            return "valid"
+        if kind in either:
+            return "either"
+        return "wrong"
+    # multiple=True
+    if kind == "list":
+        if elem_kind is None:
+            return "valid"  # the empty list
+        if elem_kind in valid:
+            return "valid"
+        if elem_kind in either:
+            return "either"
+        return "wrong"
+    if kind == "str":
+        if channel != "config":
+            return "either"  # only config files document "comma-separated string"
+        if tname in ("int", "float", "datetime"):
+            return "wrong"  # '' and 'x' are not lists of those
+        return "either"
+    if kind == "tuple":
+        return "either"
+    return "wrong"
+
+
+def wrongtype_cases():
+    for tname in sorted(TYPES):
+        for channel in WT_CHANNELS:
+            for literal, kind in WT_VALUES:
+                yield ("wt", tname, False, literal, kind, None, channel)
+                if kind != "list":
+                    yield ("wt", tname, True, literal, kind, None, channel)
+            yield ("wt", tname, True, "[]", "list", None, channel)
+            for elit, ekind in WT_ELEMENTS:
+                yield ("wt", tname, True, "[%s]" % elit, "list", ekind, channel)
+                yield ("wt", tname, True, "[%s, %s]" % (WT_GOOD[tname], elit), "list", ekind, channel)
+
+
+def run_wrongtype(ctx, case):
+    _, tname, multiple, literal, kind, elem_kind, channel = case
+    verdict = wt_classify(tname, multiple, literal, kind, elem_kind, channel)
+    value = eval(literal)  # literals come from the tables above only
+    good = eval("[%s]" % WT_GOOD[tname]) if multiple else eval(WT_GOOD[tname])
+    parser = OptionParser()
+    calls = []
+    parser.define("opt_x", type=TYPES[tname], multiple=multiple, callback=calls.append)
+    parser.opt_x = good
+    before = repr(parser.opt_x)
+    labels = {"wt_" + verdict, "wt_type_" + tname, "wt_channel_" + channel, "wt_value_" + kind + ("_of_" + elem_kind if elem_kind else "")}
+    if not value and value is not None:
+        labels.add("wt_falsy_value")
+    if multiple:
+        labels.add("wt_multiple")
+    raised = None
+    try:
+        if channel == "setattr":
+            parser.opt_x = value
+        elif channel == "setitem":
+            parser["opt-x"] = value
+        else:
+            with tempfile.TemporaryDirectory(prefix="c44-") as tmpdir:
+                path = os.path.join(tmpdir, "wt.py")
+                with open(path, "w", encoding="utf-8") as f:
+                    f.write("opt_x = %s\n" % literal)
+                parser.parse_config_file(path)
+    except Exception as e:
+        raised = e
+    detail = {"type": tname, "multiple": multiple, "value": literal, "channel": channel}
+    now = parser.opt_x
+    if verdict == "wrong":
+        if raised is None:
+            ctx.note(case, labels, True)
+            ctx.fail("C44.wrong_type_accepted", dict(detail, value_now=repr(now)))
+        elif not isinstance(raised, (Error, ValueError)):
+            labels.add("wt_raised_" + type(raised).__name__)
+        if raised is not None and repr(now) != before:
+            if multiple:
+                labels.add("partial_multiple_after_error_EITHER")  # parse() clears the list before parsing the parts
+            else:
+                ctx.fail("C44.rejected_input_changed_value", dict(detail, before=before, after=repr(now)))
+    elif verdict == "valid":
+        if raised is not None:
+            ctx.note(case, labels, True)
+            ctx.fail("C44.valid_input_rejected", dict(detail, exc=repr(raised)))
+        elif repr(now) != repr(value) or type(now) is not type(value):
+            ctx.fail("C44.value", dict(detail, got=repr(now)))
+        elif len(calls) != 2 or repr(calls[-1]) != repr(value):
+            ctx.fail("C44.callback_calls", dict(detail, calls=repr(calls)))
+    else:
+        if raised is None and repr(now) != before:
+            labels.add("wt_either_accepted")
+        else:
+            labels.add("wt_either_rejected")
+    ctx.note(case, labels, nontrivial=(verdict != "either"))
+
+
+# ----------------------------------------------------------------------------- str values on the command line (deterministic)
+# A str option takes its text verbatim: everything after the first '=' -- including leading/trailing dashes, further
+# '=' signs, blanks and the empty string -- is the value (for multiple options: split at the commas).
+STR_EDGE_TEXTS = ["-", "--", "---", "abc-", "abc--", "-abc", "--abc", "-abc-", "a-b", "a=b-", "=", "==", "-=", "=-", " ", " x ", "x ",
+                  "", "a b", "\t", "--help", "--other=1", "x-,y-", "-,-", "a,b", "a,,b", ",", "é-", "-é"]
+
+
+def strgrid_cases():
+    for multiple in (False, True):
+        for dashes in ("--", "-"):
+            for name in ("out_file", "out-file"):
+                for text in STR_EDGE_TEXTS:
+                    yield ("strgrid", multiple, dashes, name, text)
+
+
+def run_strgrid(ctx, case):
+    _, multiple, dashes, name, text = case
+    parser = OptionParser()
+    parser.define("out_file", type=str, multiple=multiple)
+    parser.define("other", type=int, default=5)
+    labels = {"strgrid_multiple" if multiple else "strgrid_single"}
+    if text.endswith("-"):
+        labels.add("strgrid_trailing_dash")
+    if text.startswith("-"):
+        labels.add("strgrid_leading_dash")
+    if multiple and text == "":
+        labels.add("strgrid_empty_multiple_EITHER")  # [] or ['']: the statement does not say
+        want = None
+    else:
+        want = text.split(",") if multiple else text
+    args = ["prog", "%s%s=%s" % (dashes, name, text), "rest", "--other=9"]
+    try:
+        with contextlib.redirect_stderr(io.StringIO()):
+            rem = parser.parse_command_line(list(args))
+    except Exception as e:
+        ctx.note(case, labels, True)
+        ctx.fail("C44.valid_input_rejected", {"args": args, "exc": repr(e)})
+        return
+    got = parser.out_file
+    if want is not None and (got != want or type(got) is not type(want)):
+        ctx.fail("C44.value", {"args": args, "got": repr(got), "expected": repr(want)})
+    if rem != ["rest", "--other=9"] or parser.other != 5:
+        ctx.fail("C44.remaining_args", {"args": args, "got": rem, "other": parser.other})
+    ctx.note(case, labels, nontrivial=True)
+
+
+PARTS = {"main": run_case, "wrongtype": run_wrongtype, "strgrid": run_strgrid}
 
 
 def main(ctx):
     ctx.run_replays(PARTS)
+    ctx.enumerate(wrongtype_cases(), run_wrongtype, name="wrongtype")
+    ctx.enumerate(strgrid_cases(), run_strgrid, name="strgrid")
     ctx.explore(case_s(), run_case, ctx.n(1500, 100000), name="main")
